@@ -41,6 +41,18 @@ func relaunchedAfterDone(events []TAEvent) []string {
 func runC05(c *Ctx) {
 	r := c.Res
 	r.Histogram = map[string]int{}
+	defer func() {
+		// Tier B: real mrp killed by real signals and restarted
+		n := 1
+		if c.Thorough {
+			n = 8
+		}
+		if env, err := tbSetup(c); err != nil {
+			r.note("tier B unavailable: %v", err)
+		} else {
+			tbC05(c, env, n)
+		}
+	}()
 	r.Rule = "programs as for C02; for each program one uninterrupted reference run, then runs with mrp killed (SIGKILL semantics: object dropped, _lock removed by the operator, in-flight jobs die with a dead pid recorded, or survive with probability 0.3) before event k for k ranging over the reference history (quick: a PRNG sample of crash points per program + double crashes; thorough: every event index), restarted the way mrp restarts (Reattach with source check, Reset, RestartLocalJobs, LoadMetadata); monitors: the restarted pipestance completes, its top-level outputs equal the reference run's, no job whose successful completion was recorded before the crash is executed again, _lock is gone after completion; every history (with crash/restart/reset events) is replayed in the Lean Sched model; non-trivial = crash happened while >=1 job was in flight or finished-but-unnoticed; distinct = (program, crash points, history) hash"
 	n := 40
 	perProg := 4
@@ -162,6 +174,18 @@ var faultKinds = []string{"errors", "assert", "exit", "badouts", "missingkey", "
 func runC06(c *Ctx) {
 	r := c.Res
 	r.Histogram = map[string]int{}
+	defer func() {
+		// Tier B: real exit codes / signals / error pipes through mrjob and the local job manager
+		n := 1
+		if c.Thorough {
+			n = 8
+		}
+		if env, err := tbSetup(c); err != nil {
+			r.note("tier B unavailable: %v", err)
+		} else {
+			tbC06(c, env, n)
+		}
+	}()
 	r.Rule = "programs as for C02; reference run gives the job list; then fault enumeration: for each (job, manifestation) — quick: a PRNG sample, thorough: all — with manifestation in {_errors, _assert, silent non-zero exit (job manager writes _errors), truncated _outs, missing output key, wrong JSON type, bad _stage_defs (split jobs)}: the pipestance must end failed (never complete), the reported error must name the failing stage, no job of a call that depends on the failed call (source-level dependency oracle) may be submitted after the failure, and after restart without the fault it must complete with the reference outputs re-executing only unfinished work; every history is replayed in the Lean Sched model; non-trivial = the failing job has >=1 dependent call or >=1 independent sibling; distinct = (program, job, kind)"
 	n := 40
 	perProg := 6
